@@ -11,6 +11,7 @@ class C08(Prop):
     id = "C08"
     trace_module = "TraceStab"
     trace_cfg = "TraceStab.cfg"
+    suite_family = ('stab', ('entropy',))
     backends = ("py", "torch")
     chunk = 300
     assumptions = [
